@@ -104,6 +104,9 @@ def cmd_seeds():
     put('fuzz_cmd', 'define "r,cir,plain,,,08,b509,0d78,,,UCH"\ndefine -r "r,cir,chain,,,08,b509,0d78;0d78,,,UCH"\nread -f -c cir chain')
     put('fuzz_cmd', 'define "r,cir,chain,,,08,b509,0d79;0d7a,,,UCH"\ndefine "r,cir,plain,,,08,b509,0d79,,,UCH"\ndefine -r "r,cir,chain,,,08,b509,0d79;0d7a,,,UIN"\nread -c cir plain')
     put('fuzz_cmd', 'GET /data/cir/p?define=r,cir,p,,,08,b509,0d7b,v,,UCH HTTP/1.1\nGET /data/cir/q?define=r,cir,q,,,08,b509,0d7b;0d7b,v,,UCH HTTP/1.1\nGET /data/cir HTTP/1.1')
+    # a message a condition of the loaded configuration refers to is replaced (define -r deletes the old object)
+    put('fuzz_cmd', 'read -f -c c1 temp\nfind -c c1\ndefine -r "r,c1,temp,outside,,08,b509,0d01,t,,D2B"\nfind -c c1\nread -c c1 ctemp\nfind -a')
+    put('fuzz_cmd', 'inject 1008b516030102ff\nGET /data/c2/state?define=u,c2,state,,10,fe,b516,10,st,,UIN HTTP/1.1\nwrite -c c2 cset 1\nfind -a -c c2\nGET /data/c2 HTTP/1.1')
     put('fuzz_cmd', 'define "w,cir,a,,,08,b509,0e7c,v,,UCH"\ndefine "w,cir,a,,,08,b509,0e7c,v,,UIN"\ndefine -r "w,cir,a,,,08,b509,0e7c,v,,UIN"\nwrite -c cir a 5\ndefine -r "u,cir,a,,,08,b509,0e7c,v,,UIN"')
     put('fuzz_cmd', 'define "r,cir,chain,,,08,b509,0d7d;0d7e;0d7d,,,HEX:*"\ndefine -r "r,cir,chain,,,08,b509,0d7d;0d7d,,,HEX:*"\ndefine -r "r,cir,chain,,,08,b509,0d7d,,,HEX:*"\nread -f -c cir chain')
 
